@@ -2025,8 +2025,8 @@ func TestVerif_C10(t *testing.T) {
 	r.SetRule("one case = one FSTree configuration (depth 0-4 x combined count limit 1/2/8/128 x size limit x threshold x linux/generic writer) with a seeded sequence of put / concurrent puts / PutBatch / delete / seeded zstd file / seeded combined file over 20 addresses (two byte variants each, lengths aimed at 38, NonPayloadFieldsBufferLength, twice that, the combined threshold and size limit, up to 256KiB), plus, at the start and every 16th step, a border-aligned combined file (hand-built or PutBatch of equal-length members; member lengths computed so that later prefixes start 0..39+ bytes before multiples of the 20480/40960/4096/32768-byte read window) whose members are read and then deleted one by one, and bursts of the same operations (plus hand-written uncompressed single files) over 8 more addresses holding small objects without ID whose raw or zstd length is aimed at 3..37, 38, 39 and a little more, or whose raw form is long while the zstd frame is shorter than the 38-byte combined prefix, and (at the start and every 16th step) two compressed objects whose zstd form is aimed at lengths around and beyond NonPayloadFieldsBufferLength with compressibility 2:1..30:1 and a chosen block structure (one-shot or many blocks after a first block of >= 20480 raw bytes), stored by Put/PutBatch or in a hand-built combined file and read through every API with all CPUs and with GOMAXPROCS=1 (a quarter of the cases runs entirely with GOMAXPROCS=1); after every step all read APIs are compared with a Go map; distinct = (configuration, op kind, on-disk format of the touched address, length class of the bytes, length class of what they occupy on disk)")
 	r.Assume("an address is never re-put with different bytes while it is stored (content addressing); it may be re-put with other bytes after deletion")
 	all := vf10Configs(r)
-	nCfg := r.Pick(30, len(all))
-	nOps := r.Pick(45, 150)
+	nCfg := r.Pick(30, min(len(all), 120)) // thorough: half of the configurations per seed (the order is a seeded permutation), to stay inside the time budget on a loaded machine
+	nOps := r.Pick(45, 120)
 	zStep := r.Pick(16, 32) // 4 resp. 6 calls of opZframes per case (they are the most expensive steps)
 	order := r.Rand("cfg-order", 0).Perm(len(all))
 	for i := 0; i < nCfg; i++ {
